@@ -456,6 +456,7 @@ type Net struct {
 	// lost. RSTOnClose counts how often that happened.
 	ResetOnCloseWithUnread bool
 	RSTOnClose             int
+	rstReported            bool
 	AutoDial      bool // complete dials immediately with success
 	nextPort      int
 	// TimeoutAddrs: dials to these addresses hang for DialTimeout and then fail with a timeout.
@@ -1105,6 +1106,13 @@ func (n *Net) OpenEnds(match func(label string) bool) []string {
 // Shutdown aborts every connection and closes every listener (end-of-run cleanup).
 func (n *Net) Shutdown() {
 	n.mu.Lock()
+	if n.RSTOnClose > 0 && !n.rstReported {
+		// (reported here, on the controller's goroutine, not where it happened)
+		n.rstReported = true
+		for i := 0; i < n.RSTOnClose; i++ {
+			n.k.FaultFired("close_with_unread_input_resets_connection")
+		}
+	}
 	ls := make([]*Listener, 0, len(n.listeners))
 	keys := make([]string, 0, len(n.listeners))
 	for k := range n.listeners {
